@@ -36,6 +36,7 @@ func run(c *vf.Ctx) {
 	packetObligations(c, names, scopes)
 	histories(c)
 	editedPacket(c)
+	editedName(c)
 }
 
 // ------------------------------------------------------------------ lattices
@@ -695,6 +696,23 @@ func editedPacket(c *vf.Ctx) {
 				p.Questions[0].Name.Name = "BARNEY"
 			}
 		}},
+		{"Questions[0].Name.Name=<same length, other letters>", func(p *nbtns.NBTNSPacket, t *tpkt) {
+			if len(t.sec[0]) > 0 {
+				nn := []byte(t.sec[0][0].name)
+				for i := range nn {
+					nn[i] = 'A' + (nn[i]+7)%26
+				}
+				t.sec[0][0].name = string(nn)
+				p.Questions[0].Name.Name = string(nn)
+			}
+		}},
+		{"Answers[0].Name.Name=WILMA.. (same length)", func(p *nbtns.NBTNSPacket, t *tpkt) {
+			if len(t.sec[1]) > 0 {
+				nn := ("WILMAXXXXXXXXXXX")[:len(t.sec[1][0].name)]
+				t.sec[1][0].name = nn
+				p.Answers[0].Name.Name = nn
+			}
+		}},
 		{"Questions[0].Name.ScopeID=corp", func(p *nbtns.NBTNSPacket, t *tpkt) {
 			if len(t.sec[0]) > 0 {
 				t.sec[0][0].scope = []string{"corp"}
@@ -757,4 +775,29 @@ func editedPacket(c *vf.Ctx) {
 		}
 	}
 	c.Set("edited_packet_histories", n)
+}
+
+// editedName: one NetBIOSName value whose fields are assigned between FirstLevelEncode calls encodes like a fresh
+// value with the same fields (all ordered pairs of a small set of names x scopes).
+func editedName(c *vf.Ctx) {
+	type nv struct{ n, sc string }
+	vals := []nv{{"FRED", ""}, {"BARN", ""}, {"FRED", "sc"}, {"BARNEY", "sc"}, {"FRED", "corp.example"}, {"", ""}, {"0123456789ABCDEF", ""}, {"FEDCBA9876543210", "x"}}
+	for _, a := range vals {
+		for _, b := range vals {
+			n := &nbtns.NetBIOSName{Name: a.n, ScopeID: a.sc}
+			var got, want string
+			var gerr, werr error
+			pn, msg, where := vf.Try(func() {
+				n.FirstLevelEncode()
+				n.Name, n.ScopeID = b.n, b.sc
+				got, gerr = n.FirstLevelEncode()
+				want, werr = (&nbtns.NetBIOSName{Name: b.n, ScopeID: b.sc}).FirstLevelEncode()
+			})
+			c.Evals(1)
+			c.Case([]byte("name.edit"), []byte(a.n), []byte(a.sc), []byte(b.n), []byte(b.sc))
+			c.Check("C10/name/history/edited-name-encodes-like-a-fresh-name", !pn && (gerr == nil) == (werr == nil) && got == want, func() string {
+				return fmt.Sprintf("NetBIOSName{%q,%q}.FirstLevelEncode(); fields assigned {%q,%q}; FirstLevelEncode() = %q (%v); a fresh value gives %q (%v) (panic=%v %s %s)", a.n, a.sc, b.n, b.sc, got, gerr, want, werr, pn, msg, where)
+			})
+		}
+	}
 }
